@@ -55,6 +55,33 @@ func simSelRand(n uint32) uint32 {
 	return uint32((uint64(x) * uint64(n)) >> 32)
 }
 EOG
-printf '{"Replace":{"%s":"%s"}}\n' "$SEL" "$SCR/overlay/select.go" > "$SCR/overlay/overlay.json"
+# 3b. runtime overlay: seeded map seeds / iteration offsets (internal/runtime/maps draws them from maps_rand)
+RND="$GOROOT_/src/runtime/rand.go"
+N=$(grep -c '^func maps_rand() uint64 {$' "$RND" || true)
+if [ "$N" != "1" ]; then echo "build.sh: runtime/rand.go does not have the expected maps_rand exactly once" >&2; exit 2; fi
+python3 - "$RND" "$SCR/overlay/rand.go" <<'EOP'
+import sys
+s = open(sys.argv[1]).read()
+old = "func maps_rand() uint64 {\n\treturn rand()\n}"
+assert s.count(old) == 1, "maps_rand body not as expected"
+new = """func maps_rand() uint64 {
+	if x := simMapState; x != 0 {
+		x ^= x << 13
+		x ^= x >> 7
+		x ^= x << 17
+		simMapState = x
+		return x
+	}
+	return rand()
+}
+
+// gtree simulator seam (overlay; GOROOT itself is not modified): while non-zero, map hash
+// seeds and iteration offsets come from this xorshift state instead of the per-M generator.
+//
+//go:linkname simMapState
+var simMapState uint64"""
+open(sys.argv[2], "w").write(s.replace(old, new))
+EOP
+printf '{"Replace":{"%s":"%s","%s":"%s"}}\n' "$SEL" "$SCR/overlay/select.go" "$RND" "$SCR/overlay/rand.go" > "$SCR/overlay/overlay.json"
 # 4. test binary
 (cd "$SCR/mod" && $GO test -c -overlay "$SCR/overlay/overlay.json" -o "$SCR/sim.test" ./simharness)
